@@ -371,7 +371,8 @@ def run(ctx):
                 n_shrunk += 1
                 sc, trim = shrink(c, r)
             else:
-                sc, trim = c, None
+                sc = c
+                trim = c["trims"][0] if isinstance(c["trims"], list) and len(c["trims"]) == 1 else None
             detail = "; ".join(why) if why else (
                 f"content{tuple(trim) if trim else ''} does not show the corresponding region of the untrimmed canvas "
                 f"(rows / width / colours / end-of-row attributes)")
